@@ -246,6 +246,10 @@ static List gen_members(Rng &r)
     std::string v = r.bytes(static_cast<size_t>(r.range(1, 12)), va);
     if (v.size() >= 3 && r.chance(1, 4))
       v[1 + r.below(v.size() - 2)] = ' ';
+    // a value may START with a blank (W3C: value = 0*255(chr) nblk-chr); such a state cannot be written as a
+    // list member by hand without the blank looking like OWS, so it is built through TraceState::Set below
+    if (v.size() >= 2 && r.chance(1, 6))
+      v[0] = ' ';
     if (r.chance(1, 40))
       v = r.bytes(256, va);
     l.emplace_back(k, v);
@@ -407,9 +411,26 @@ static void inject_roundtrip(Rng &r, const std::string &tid, const std::string &
   nostd::shared_ptr<trace_api::TraceState> ts = trace_api::TraceState::GetDefault();
   if (!members.empty())
   {
-    vf::Buf hb(join(members));
-    ts = trace_api::TraceState::FromHeader(nostd::string_view(hb.data(), hb.size()));
-    r.coin() ? hb.scribble() : hb.release();
+    bool leading_blank = false;
+    for (auto &e : members)
+      leading_blank |= !e.second.empty() && e.second[0] == ' ';
+    if (leading_blank || r.chance(1, 5))
+    {
+      // built member by member (Set puts the key first, so in reverse order)
+      for (size_t i = members.size(); i-- > 0;)
+      {
+        vf::Buf kb(members[i].first), vb(members[i].second);
+        ts = ts->Set(nostd::string_view(kb.data(), kb.size()), nostd::string_view(vb.data(), vb.size()));
+      }
+      if (leading_blank)
+        R.count("roundtrip_tracestate_value_with_leading_blank");
+    }
+    else
+    {
+      vf::Buf hb(join(members));
+      ts = trace_api::TraceState::FromHeader(nostd::string_view(hb.data(), hb.size()));
+      r.coin() ? hb.scribble() : hb.release();
+    }
     if (entries(*ts) != members)
     {
       R.count("tracestate_precondition_failed");  // TraceState itself is C14's business
